@@ -996,8 +996,8 @@ where
                 // SAFETY: `new_len` is checked above
                 unsafe { self.set_len(new_len) }
             }
+            debug_assert!(self.is_normalized());
         }
-        debug_assert!(self.is_normalized());
     }
 
     /// Shrinks the capacity of the vector with a lower bound.
